@@ -13,7 +13,7 @@ SRC_DEPS = {"Overlaps": ["Overlaps"], "Intersection": ["Intersection"], "Extend"
 SRC_MODULES = [T + "Src." + n for n in SRC_DEPS]
 CFG = {
     "id": "C04",
-    "lean_modules": ["GeomV.C04.Proofs", "GeomV.C04.ProofsNaN", "GeomV.C04.ProofsMore", "GeomV.C04.ProofsNil", "GeomV.C04.ProofsNaNBox", "GeomV.C04.ProofsAfter"] + TIE_MODULES + SRC_MODULES,
+    "lean_modules": ["GeomV.C04.Proofs", "GeomV.C04.ProofsNaN", "GeomV.C04.ProofsMore", "GeomV.C04.ProofsNil", "GeomV.C04.ProofsNaNBox", "GeomV.C04.ProofsAfter", "GeomV.C04.ProofsNaNMember"] + TIE_MODULES + SRC_MODULES,
     "exe": "geomv_c04",
     "go_cmd": "c04",
     "stages": ["go:gen", "go:impl", "lean:judge"],
@@ -39,6 +39,10 @@ CFG = {
         # every box of values, not with NaN (witness)
         "C04_nan_overlaps", "C04_nan_overlaps_ok", "C04_nan_intersection_ok", "C04_nan_intersection_side", "C04_nan_empty_ok",
         "C04_nan_empty_nan_axis", "C04_spec_boxNaN", "C04_nan_box_exec", "C04_extend_self_alias", "C04_extend_self_alias_nan",
+        # phase 4 — *Bounds members of a geometry with NaN coordinates: with value sides they are folded like their four corners
+        # (flat fold and envelope clause extended to them, executed instance); with a NaN side the result depends on the
+        # member's position (witness) — correspondence only
+        "C04_nan_bounds_flat_boxes", "C04_nan_envelope_boxes", "C04_nan_envelope_boxes_exec", "C04_nan_box_member_position",
         # outside the hypotheses: Len()/Bounds() panic exactly when a member is nil (nil dereference, the only possible
         # fault); the first call beyond Len() (Point: itself again; *Bounds without points: its Min corner; *Bounds with
         # points: "out of bounds"; every other type incl. collections: index out of range)
@@ -98,7 +102,7 @@ CFG = {
     "assumptions": [
         "NaN coordinates are outside the property's quantifier: geometries with NaN are judged on Len/Points as usual (C04_len/C04_points do not depend on "
         "the coordinate type) and on Bounds() by the envelope clause read with NaN (SpecNaN.lean IsEnvelopeNaN: an axis without NaN has non-NaN sides, a non-NaN side "
-        "is an attained bound of the non-NaN coordinates of its axis; proved for the model, C04_nan_envelope/C04_nan_exec; SPEC) and then by correspondence with the "
+        "is an attained bound of the non-NaN coordinates of its axis; proved for the model incl. *Bounds members with value sides, C04_nan_envelope_boxes/_exec; SPEC) and then by correspondence with the "
         "model run at NV FKey (DIFF); a geometry containing a *Bounds with a NaN side is correspondence only (DIFF, never SPEC). Box lines (ovl/int/ext/ext3/empty/self) with NaN sides: "
         "Overlaps/Intersection/Empty answers judged by the axis-by-axis clauses every reading demands (SpecNaN.lean OverlapsOkNaN/IntersectionOkNaN/EmptyOkNaN; SPEC), "
         "every answer incl. Extend compared with the model at NV FKey (DIFF); self3 lines with NaN are skipped",
